@@ -176,6 +176,24 @@ theorem fold_block (h : List Str) (cs : List WCard) (r : RS) (hb : r.block < 3) 
   rw [this]
   simp [closeCur, hc]
 
+/-! ### the Boolean checkers used by the driver decide the predicates -/
+
+theorem contOKb_iff (rest : List Str) : ∀ amp, contOKb amp rest = true ↔ ContOK amp rest := by
+  induction rest with
+  | nil => intro amp; cases amp <;> simp [contOKb, ContOK]
+  | cons l t ih =>
+    intro amp
+    simp only [contOKb, ContOK, Bool.and_eq_true, Bool.not_eq_true']
+    by_cases hc : isCommentCard l = true
+    · simp [hc, ih]
+    · simp [hc, ih]
+
+theorem cardOKb_iff (c : WCard) : cardOKb c = true ↔ CardOK c := by
+  simp [cardOKb, CardOK, contOKb_iff, and_assoc]
+
+theorem headOKb_iff (h : List Str) : headOKb h = true ↔ HeadOK h := by
+  simp [headOKb, HeadOK]
+
 /-! ### the whole file -/
 
 theorem splitMessage_append (ms rest : List Str) (h : ∀ l ∈ ms, isBlankLine l = false) :
